@@ -206,11 +206,11 @@ impl<T> NFA<T> {
     }
 
     /// For `a` regular expression it is equivalent to `a?`
-    pub fn optional(mut self) -> Self {
-        if let Some(start) = self.states.get_mut(&self.start) {
-            start.epsilons.insert(self.stop);
-        }
-        self
+    pub fn optional(self) -> Self {
+        // NOTE: adding epsilon edge from start to stop in place is only correct
+        //       if start state has no incoming edges and stop state has no outgoing
+        //       edges, otherwise `(a+b)?` would match `a` and `(ab+)?` would match `b`.
+        Self::choice([self, Self::empty()])
     }
 
     /// For `a` regular expression it is equivalent to `a*`
